@@ -1898,4 +1898,232 @@ theorem stale_result_counterexample :
     drVal (cycReserve busy [0] a stale 2).1.used 0 0 = 200 ∧ drVal busy.total 0 0 = 100 ∧
     (cycReserve busy [0] a { stale with result := none } 2).2.2 = false := by decide
 
+/-! ## Extension 4 — a pod scheduled next to reservations it does NOT match (Model/C07Glue.lean (c)) -/
+
+
+theorem keysNodup_drSubtract (inp : DevRes) (nn : Bool) : ∀ (r : DevRes), (keys r).Nodup → (keys (drSubtract r inp nn)).Nodup := by
+  induction inp with
+  | nil => intro r h; simpa [drSubtract] using h
+  | cons e rest ih =>
+    intro r h
+    have ih' := ih
+    unfold drSubtract at ih' ⊢
+    simp only [List.foldl_cons]
+    apply ih'
+    split <;> split <;> first | exact keysNodup_drErase _ _ h | exact keysNodup_drSet _ _ _ h
+
+/-- deviceResources.subtract with non-negative result, value-wise: max 0 (r − Σ inp) on a non-negative entry -/
+theorem drSubtractNN_val (inp : DevRes) (hin : AlNonneg inp) : ∀ (r : DevRes) (m k : Nat), 0 ≤ drVal r m k →
+    drVal (drSubtract r inp true) m k = max 0 (drVal r m k - alSum inp m k) := by
+  induction inp with
+  | nil => intro r m k h; simp only [drSubtract, List.foldl_nil, alSum]; omega
+  | cons e rest ih =>
+    intro r m k h
+    obtain ⟨m', v⟩ := e
+    have hrest : AlNonneg rest := fun p hp => hin p (List.mem_cons_of_mem _ hp)
+    have hv : 0 ≤ rlVal v k := hin (m', v) (List.mem_cons_self) k
+    have hS := alSum_nonneg rest hrest m k
+    have ih' := ih hrest
+    unfold drSubtract at ih' ⊢
+    simp only [List.foldl_cons, if_true] at ih' ⊢
+    simp only [alSum]
+    split
+    · rename_i hz
+      have h0 := rlVal_of_isZero _ k hz
+      rw [rlVal_subNN _ _ _ hv] at h0
+      by_cases hm : m' = m
+      · subst hm
+        have hval : drVal (drErase r m') m' k = 0 := by simp [drVal, drGetD, drGet_drErase, rlVal_nil]
+        rw [ih' _ m' k (by omega), hval]
+        simp only [drVal, drGetD] at h0 h ⊢
+        simp only [if_true]
+        omega
+      · have hval : drVal (drErase r m') m k = drVal r m k := by simp [drVal, drGetD, drGet_drErase, hm]
+        rw [ih' _ m k (by omega), hval]
+        simp [hm]
+    · by_cases hm : m' = m
+      · subst hm
+        have hval : drVal (drSet r m' (rlSubNN (drGetD r m') v)) m' k = max 0 (drVal r m' k - rlVal v k) := by
+          simp only [drVal, drGetD, drGet_drSet, if_true, Option.getD_some]
+          exact rlVal_subNN _ _ _ hv
+        rw [ih' _ m' k (by omega), hval]
+        simp only [if_true]
+        omega
+      · have hval : drVal (drSet r m' (rlSubNN (drGetD r m') v)) m k = drVal r m k := by
+          simp [drVal, drGetD, drGet_drSet, hm]
+        rw [ih' _ m k (by omega), hval]
+        simp [hm]
+
+theorem rsvOK_parts (a : Reusable) (h : rsvOK a = true) :
+    amountsOK a.allocatable = true ∧ (keys a.allocatable).Nodup ∧ amountsOK a.allocated = true ∧ amountsOK a.remained = true := by
+  simp only [rsvOK, alOK, Bool.and_eq_true] at h
+  exact ⟨h.1.1.1, (nodupB_iff _).mp h.1.1.2, h.1.2, h.2⟩
+
+theorem restoreOne_remained_keys (s : TState) (rsv : Nat) (owners : List Nat) (ru : Reusable)
+    (h : restoreOne s rsv owners = some ru) (hk : (keys ru.allocatable).Nodup) : (keys ru.remained).Nodup := by
+  unfold restoreOne at h
+  simp only [] at h
+  split at h
+  · simp at h
+  · simp only [Option.some.injEq] at h
+    subst h
+    exact keysNodup_drSubtract _ _ _ hk
+
+/-- **unmatched_discount_val**: the discount mergeReservationAllocations grants for a reservation the pod does not match
+    is, at every device and dimension, EXACTLY what the reservation's owner pods took out of it on its devices —
+    `allocatable − remained`; what the reservation still holds is no part of it. -/
+theorem unmatched_discount_val (s : TState) (rsv : Nat) (owners : List Nat) (ru : Reusable)
+    (h : restoreOne s rsv owners = some ru) (hok : rsvOK ru = true) (m k : Nat) :
+    drVal (unmatchedDiscount ru) m k = alSum ru.allocated m k ∧
+    drVal (unmatchedDiscount ru) m k + drVal ru.remained m k = drVal ru.allocatable m k ∧
+    0 ≤ drVal ru.remained m k ∧ 0 ≤ drVal (unmatchedDiscount ru) m k := by
+  obtain ⟨ha, hk, hb, hr⟩ := rsvOK_parts ru hok
+  have hrem := (restore_remained_val s rsv owners ru h m k).1
+  have hrk := restoreOne_remained_keys s rsv owners ru h hk
+  have hS := alSum_nonneg ru.allocated (alNonneg_of _ hb) m k
+  have hr0 := drVal_nonneg_of ru.remained hr m k
+  have ha0 := drVal_nonneg_of ru.allocatable ha m k
+  have hd : drVal (unmatchedDiscount ru) m k = max 0 (drVal ru.allocatable m k - drVal ru.remained m k) := by
+    unfold unmatchedDiscount
+    rw [drSubtractNN_val ru.remained (alNonneg_of _ hr) ru.allocatable m k ha0, alSum_eq_drVal ru.remained hrk]
+  refine ⟨?_, ?_, hr0, ?_⟩ <;> omega
+
+/-- calcFree_preempt with the sign hypothesis only where it is used -/
+theorem calcFree_preempt_at (s : TState) (hinv : Inv1 s) (pre : DevRes) (hn : (pre.map (·.1)).Nodup)
+    (m k : Nat) (hp : 0 ≤ drVal pre m k) :
+    drVal (calcFree s pre []) m k =
+      match drGet pre m with
+      | some _ => max 0 (drVal s.total m k - max 0 (drVal s.used m k - drVal pre m k))
+      | none => drVal s.free m k := by
+  have hget := calcFree_preempt_get s pre hn m
+  cases hg : drGet pre m with
+  | none =>
+    rw [hg] at hget
+    simp only [drVal, drGetD, hget]
+  | some P =>
+    rw [hg] at hget
+    simp only [] at hget
+    have hPv : drVal pre m k = rlVal P k := by simp [drVal, drGetD, hg]
+    have hP : 0 ≤ rlVal P k := by rw [← hPv]; exact hp
+    have hrem : rlVal (remainingOf s m P) k = max 0 (drVal s.total m k - max 0 (drVal s.used m k - rlVal P k)) := by
+      simp only [remainingOf]
+      rw [rlVal_subNN _ _ _ (rlVal_subNN_nonneg _ _ k), rlVal_subNN _ _ _ hP]
+      rfl
+    rw [hPv]
+    by_cases hz : rlIsZero (remainingOf s m P) = true
+    · simp only [hz, if_true] at hget
+      have h0 := rlVal_of_isZero _ k hz
+      rw [hrem] at h0
+      have hf := hinv.free m k
+      have hu := hinv.upos m k
+      have ht := hinv.tpos m k
+      simp only [drVal, drGetD, hget] at *
+      omega
+    · simp only [hz, if_false] at hget
+      simp only [drVal, drGetD, hget, Option.getD_some]
+      simpa [drVal, drGetD] using hrem
+
+/-- **unmatched_reservation_remainder_not_free**: on a ledger with the invariants, where the reservation's record is part
+    of what is in use (`rec_le_used`), the free amount the allocator is shown under the discount of an unmatched
+    reservation never reaches into what the reservation still holds: offered ≤ (total − remained)⁺ at every device and
+    dimension — an unconsumed or partly consumed reservation keeps its remainder for its owners. -/
+theorem unmatched_reservation_remainder_not_free (s : TState) (hinv : Inv1 s) (rsv : Nat) (owners : List Nat) (ru : Reusable)
+    (h : restoreOne s rsv owners = some ru) (hok : rsvOK ru = true) (m k : Nat)
+    (hu : drVal ru.allocatable m k ≤ drVal s.used m k) :
+    drVal (calcFree s (unmatchedDiscount ru) []) m k ≤ max 0 (drVal s.total m k - drVal ru.remained m k) := by
+  obtain ⟨_, hk, _, _⟩ := rsvOK_parts ru hok
+  obtain ⟨_, h2, h3, h4⟩ := unmatched_discount_val s rsv owners ru h hok m k
+  have hn : ((unmatchedDiscount ru).map (·.1)).Nodup := keysNodup_drSubtract _ _ _ hk
+  rw [calcFree_preempt_at s hinv _ hn m k h4]
+  have hf := hinv.free m k
+  cases drGet (unmatchedDiscount ru) m with
+  | none => simp only []; omega
+  | some _ => simp only []; omega
+
+/-- an UNCONSUMED reservation (no owner pod holds a device) earns no discount at all: its devices are offered with the
+    ledger's own free amounts -/
+theorem unmatched_unconsumed_no_discount (s : TState) (rsv : Nat) (owners : List Nat) (ru : Reusable)
+    (h : restoreOne s rsv owners = some ru) (hok : rsvOK ru = true) (hnone : ru.allocated = []) (m k : Nat) :
+    drVal (unmatchedDiscount ru) m k = 0 := by
+  have := (unmatched_discount_val s rsv owners ru h hok m k).1
+  rw [this, hnone]; rfl
+
+/-- mergeReservationAllocations over the unmatched side = the discounts appended one after the other -/
+theorem restore_unmatched_is_discounts (s : TState) (ms us : List (Nat × List Nat)) :
+    (restore s ms us).2.mergedUnmatchedUsed =
+      (us.filterMap (fun e => restoreOne s e.1 e.2)).foldl (fun acc a => drAppend acc (unmatchedDiscount a) []) [] := rfl
+
+def discountSum : List Reusable → Nat → Nat → Int
+  | [], _, _ => 0
+  | a :: rest, m, k => alSum (unmatchedDiscount a) m k + discountSum rest m k
+
+theorem foldl_discounts_val (l : List Reusable) : ∀ (acc : DevRes) (m k : Nat),
+    drVal (l.foldl (fun acc a => drAppend acc (unmatchedDiscount a) []) acc) m k = drVal acc m k + discountSum l m k := by
+  induction l with
+  | nil => intro acc m k; simp [discountSum]
+  | cons a rest ih =>
+    intro acc m k
+    simp only [List.foldl_cons, discountSum]
+    rw [ih, drAppend_val]; omega
+
+/-- with several unmatched reservations on a node the preemptible amount handed to Filter / Reserve is, per device and
+    dimension, the SUM of the single discounts -/
+theorem restore_unmatched_val (s : TState) (ms us : List (Nat × List Nat)) (m k : Nat) :
+    drVal (restore s ms us).2.mergedUnmatchedUsed m k = discountSum (us.filterMap (fun e => restoreOne s e.1 e.2)) m k := by
+  rw [restore_unmatched_is_discounts, foldl_discounts_val]
+  simp [drVal, drGetD, drGet, rlVal_nil]
+
+/-- the seeded change of round 4 (`allocatable − alloc.allocated` instead of `− alloc.remained`) on the smallest input:
+    one GPU of 100 wholly held by an unconsumed reservation; the changed discount is the whole record, the view offers
+    100 free on a GPU with nothing free, the real discount is empty and the view offers nothing. -/
+theorem unmatched_remainder_free_counterexample :
+    let s := addT (refreshT TState.empty [(0, [some 100])]) 101 [(0, [some 100])]
+    let ru : Reusable := { rsv := 101, allocatable := [(0, [some 100])], allocated := [], remained := [(0, [some 100])] }
+    (restoreOne s 101 []).map (fun r => [r.allocatable, r.allocated, r.remained]) = some [ru.allocatable, ru.allocated, ru.remained] ∧
+    unmatchedDiscount ru = [] ∧ drVal (filterT s (some [0]) (unmatchedDiscount ru) []).free 0 0 = 0 ∧
+    drVal (filterT s (some [0]) (drSubtract ru.allocatable ru.allocated true) []).free 0 0 = 100 := by decide
+
+/-- Reserve next to unmatched reservations commits only devices that pass the allocator's guards on the view built
+    with the discount (`cycViewR`), at the commit point -/
+theorem reserve_next_to_unmatched_commits_view_free (s : TState) (minors : List Nat) (a : AllocReq) (c : PState)
+    (pre : DevRes) (p : Nat) (s' : TState) (c' : PState) (ms : List Nat) (hc : c.result = none)
+    (h : cycReserveR s minors a c pre p = (s', c', true)) (hres : c'.result = some ms) :
+    s' = addT s p (allocList a ms) ∧
+    ∀ m ∈ ms, ∃ f, (m, f) ∈ (cycViewR s minors c pre).free ∧ qualifies a (m, f) = true := by
+  unfold cycReserveR at h
+  rw [hc] at h
+  simp only [] at h
+  cases hal : allocate (cycViewR s minors c pre) a with
+  | none => simp [hal] at h
+  | some r =>
+    simp only [hal, Prod.mk.injEq] at h
+    obtain ⟨h1, h2, _⟩ := h
+    have hr : r = ms := by
+      rw [← h2] at hres
+      simpa using hres
+    subst hr
+    exact ⟨h1.symm, allocate_mem_free _ a r hal⟩
+
+/-- the hypotheses are satisfiable on a non-trivial input: GPU 0 of 100, reservation 101 holds 100 of it, owner 2 took 40 -/
+example :
+    let s := addT (addT (refreshT TState.empty [(0, [some 100])]) 101 [(0, [some 100])]) 2 [(0, [some 40])]
+    ∃ ru, (restoreOne s 101 [2]).map (fun r => [r.allocatable, r.allocated, r.remained]) = some [ru.allocatable, ru.allocated, ru.remained] ∧ rsvOK ru = true ∧ drVal (unmatchedDiscount ru) 0 0 = 40 ∧
+      drVal ru.remained 0 0 = 60 ∧ drVal (calcFree s (unmatchedDiscount ru) []) 0 0 = 0 := by
+  refine ⟨{ rsv := 101, allocatable := [(0, [some 100])], allocated := [(0, [some 40])], remained := [(0, [some 60])] }, ?_⟩
+  decide
+
+
+/-- OPEN finding candidate (env-gated stream VERIF_C07_OVERCONSUME=1): owners that hold MORE than their reservation on a
+    GPU.  GPU 0 of 100; reservation 101 holds 50; its owners 2 and 3 hold 20 and 60 (30 of it out of the node's free
+    amount — Default / Aligned policy): 80 are really in use, 20 free.  `remained` = 50 − 80 = −30 (plain subtraction),
+    the discount `allocatable − remained` = 80 exceeds the reservation's own record, the ledger's 130 in use shrink to
+    50 and a pod that does not match the reservation is offered 50: the hypothesis `rsvOK` (remained ≥ 0) is necessary. -/
+theorem owner_exceeds_reservation_counterexample :
+    let s := addT (addT (addT (refreshT TState.empty [(0, [some 100])]) 101 [(0, [some 50])]) 2 [(0, [some 20])]) 3 [(0, [some 60])]
+    let ru : Reusable := { rsv := 101, allocatable := [(0, [some 50])], allocated := [(0, [some 80])], remained := [(0, [some (-30)])] }
+    (restoreOne s 101 [2, 3]).map (fun r => [r.allocatable, r.allocated, r.remained]) = some [ru.allocatable, ru.allocated, ru.remained] ∧
+    rsvOK ru = false ∧ drVal (unmatchedDiscount ru) 0 0 = 80 ∧ drVal s.used 0 0 = 130 ∧
+    drVal (filterT s (some [0]) (unmatchedDiscount ru) []).free 0 0 = 50 ∧
+    ¬ (drVal (calcFree s (unmatchedDiscount ru) []) 0 0 ≤ max 0 (drVal s.total 0 0 - 80)) := by decide
+
 end KoordVerif.C07
